@@ -93,7 +93,8 @@ def check(spec):
             # shift rule from the declared frequencies
             if si == 0 and oi == 0:
                 try:
-                    rule = qp.gradients.generate_shift_rule(tuple(freqs))
+                    # no declared frequency = the parameter does not affect the expectation value: the exact rule is the empty one
+                    rule = qp.gradients.generate_shift_rule(tuple(freqs)) if len(freqs) else []
                 except Exception as e:  # noqa
                     return bad(f"shift-rule-generation-failed:{inst['op']}", repr(e), "a rule")
                 x0 = float(flat[idx])
@@ -103,7 +104,7 @@ def check(spec):
                     return float(np.real(np.vdot(Ux @ psi, O @ (Ux @ psi))))
 
                 g_rule = sum(float(c) * fx(x0 + float(s)) for c, s in rule)
-                g_ref = float(R.fd_derivative(fx, x0, h=1e-2 / max(1.0, max(freqs))))
+                g_ref = float(R.fd_derivative(fx, x0, h=1e-2 / max(1.0, max(freqs, default=1.0))))
                 if abs(g_rule - g_ref) > 1e-6 * max(1.0, abs(g_ref)):
                     return bad(f"shift-rule-inexact:{inst['op']}:param{idx}", g_rule, g_ref, declared=freqs, variant=inst.get("v"))
     return ok(outcome=[inst["op"], idx, freqs], nontrivial=nonconst)
